@@ -155,6 +155,17 @@ UNITS = [
      [("bv_first_zero", "bv_first_zero", "256"), ("bv_bit_value", "bv_bit_value", "8"), ("bv_bit_mask", "bv_bit_mask", "9")]),
 ]
 
+# constants that exist only as text inside tool sources (local array sizes, file-private #defines, initial values):
+# (lean name, file, regex with ONE group capturing a C constant expression). The captured text is compiled and printed.
+TEXTCONSTS = [
+    ("H4TOOLS_BUFSIZE", "mfhdf/hrepack/hrepack_sds.c", r"#define\s+H4TOOLS_BUFSIZE\s+(\([^)]*\))"),
+    ("H4TOOLS_MALLOCSIZE", "mfhdf/hrepack/hrepack_sds.c", r"#define\s+H4TOOLS_MALLOCSIZE\s+(\([^)]*\))"),
+    ("SCOMP_SZ", "mfhdf/hrepack/hrepack_parse.c", r"char\s+scomp\[(\d+)\]"),
+    ("STYPE_SZ", "mfhdf/hrepack/hrepack_parse.c", r"char\s+stype\[(\d+)\]"),
+    ("SDIM_SZ", "mfhdf/hrepack/hrepack_parse.c", r"char\s+sdim\[(\d+)\]"),
+    ("DEFAULT_THRESHOLD", "mfhdf/hrepack/hrepack.c", r"options->threshold\s*=\s*(\d+)\s*;"),
+]
+
 # expression macros translated from source text: (lean name, file, macro name)
 MACROS = [
     ("AN_CREATE_KEY", "hdf/src/mfan_priv.h", "AN_CREATE_KEY"),
@@ -356,6 +367,20 @@ class P:
         fail("macro translator: identifier %s outside the supported subset" % t)
 
 
+def gen_textconsts(tmp):
+    exprs = []
+    for ln, path, rx in TEXTCONSTS:
+        txt = open(os.path.join(repo, path)).read()
+        ms = re.findall(rx, txt)
+        if len(set(ms)) != 1:
+            fail("text constant %s: pattern %r matches %d different texts in %s" % (ln, rx, len(set(ms)), path))
+        exprs.append((ln, ms[0]))
+    return gen_unit("Tools", '#include "hdf.h"\n#include "mfhdf.h"\n#include "hrepack.h"\n',
+                    ["COMP_CODE_NONE", "COMP_CODE_RLE", "COMP_CODE_NBIT", "COMP_CODE_SKPHUFF", "COMP_CODE_DEFLATE", "COMP_CODE_SZIP",
+                     "COMP_CODE_INVALID", "COMP_CODE_JPEG", "HDF_NONE", "HDF_CHUNK", "HDF_COMP", "HDF_NBIT", "H4_MAX_NC_NAME", "H4_MAX_VAR_DIMS",
+                     "SD_UNLIMITED", "NN_MODE", "EC_MODE"] + exprs, [], tmp)
+
+
 def gen_macros(known):
     out = ["/- GENERATED by /verif/gen/gen.py (Tie A, macro translator). Do not edit. -/\n", "namespace H4.Gen.Macros\n\n"]
     for ln, path, name in MACROS:
@@ -381,6 +406,7 @@ def main():
                 known[m.group(1)] = int(m.group(2))
             files[name + ".lean"] = txt
         files["Conv.lean"] = gen_conv(tmp)
+        files["Tools.lean"] = gen_textconsts(tmp)
     files["Macros.lean"] = gen_macros(known)
     digest = {}
     for fn, txt in files.items():
@@ -390,7 +416,7 @@ def main():
         digest[fn] = hashlib.sha256(txt.encode()).hexdigest()[:16]
     for rel in ["hdf/src/hfile_priv.h", "hdf/src/hdf.h", "hdf/src/htags.h", "hdf/src/hlimits.h", "hdf/src/hntdefs.h", "hdf/src/crle.c",
                 "hdf/src/crle_priv.h", "hdf/src/atom.c", "hdf/src/bitvect.c", "hdf/src/bitvect_priv.h", "hdf/src/vg_priv.h", "hdf/src/hcomp.h", "hdf/src/hfile.c", "hdf/src/hfiledd.c", "hdf/src/mfan_priv.h", "hdf/src/mfan.c", "hdf/src/vgp.c", "hdf/src/vg.c",
-                "hdf/src/mcache.c", "hdf/src/mcache_priv.h", "hdf/src/hchunks.c", "hdf/src/hcomp.c", "hdf/src/hfile.h", "hdf/src/vg.h", "hdf/src/hblocks.c", "hdf/src/hextelt.c", "hdf/src/vio.c", "hdf/src/dfrle.c", "hdf/src/dfsd.c", "hdf/src/dfgr.c", "hdf/src/dfr8.c", "hdf/src/mfgr.c", "mfhdf/src/hdfsds.c", "mfhdf/src/cdf.c", "hdf/src/hdf_priv.h", "hdf/src/mfgr.c", "hdf/src/mfgr.h", "hdf/src/hbitio.c", "hdf/src/hbitio_priv.h", "hdf/src/cnbit.c", "hdf/src/cnbit_priv.h", "hdf/src/cskphuff.c", "hdf/src/cskphuff_priv.h", "hdf/src/dfkswap.c", "hdf/src/dfknat.c", "hdf/src/dfconv.c",
+                "hdf/src/mcache.c", "hdf/src/mcache_priv.h", "hdf/src/hchunks.c", "hdf/src/hcomp.c", "hdf/src/hfile.h", "hdf/src/vg.h", "hdf/src/hblocks.c", "hdf/src/hextelt.c", "hdf/src/vio.c", "hdf/src/dfrle.c", "hdf/src/dfsd.c", "hdf/src/dfgr.c", "hdf/src/dfr8.c", "hdf/src/mfgr.c", "mfhdf/src/hdfsds.c", "mfhdf/src/cdf.c", "hdf/src/hdf_priv.h", "hdf/src/mfgr.c", "hdf/src/mfgr.h", "hdf/src/hbitio.c", "hdf/src/hbitio_priv.h", "hdf/src/cnbit.c", "hdf/src/cnbit_priv.h", "hdf/src/cskphuff.c", "hdf/src/cskphuff_priv.h", "hdf/src/dfkswap.c", "hdf/src/dfknat.c", "hdf/src/dfconv.c", "mfhdf/hrepack/hrepack_opttable.c", "mfhdf/hrepack/hrepack_utils.c", "mfhdf/hrepack/hrepack_gr.c", "mfhdf/hdiff/hdiff_array.c", "mfhdf/hdiff/hdiff.c", "mfhdf/hdfimport/hdfimport.c", "mfhdf/hdp/hdp_dump.c",
                 "hdf/src/mfgr_priv.h", "hdf/src/vattr.c", "hdf/src/mfgr.c", "mfhdf/src/mfsd.c", "mfhdf/src/attr.c", "mfhdf/src/cdf.c"]:
         p = os.path.join(repo, rel)
         if os.path.exists(p):
